@@ -61,7 +61,9 @@ ASSUMPTIONS = [
     "the map identified on one-hot inputs is the map applied to every input: the code under test contains no data-dependent "
     "branch in the thermostat / integrator step (verified by a superposition probe per lattice point, and by reading)",
     "k_B is the one implied by the package's temperature read-out; its tie to CODATA is C08's unit oracle",
-    "surface hopping inherits `_apply_langevin_thermostat` unchanged (not executed here); XL_ESMD likewise",
+    "surface hopping: the thermostat it applies, its n_dof bookkeeping and the two applications per step are checked on the "
+    "real engine with real CIS electronic structure (part d); its stationary state under the full step is not (no linear "
+    "stand-in for the nonadiabatic machinery); XL_ESMD inherits `_apply_langevin_thermostat` unchanged (not executed)",
     "float64, CPU",
 ]
 
@@ -76,12 +78,15 @@ def _kB():
     return U.k_boltzmann_package(C)
 
 
-def _setup(engine, mols, method, K, dt, damp, T, proxy, remove_com=None):
-    """real Molecule + real MD object (stand-in driver), real initialize(); returns (md, molecule, x0)"""
+def _setup(engine, mols, method, K, dt, damp, T, proxy, remove_com=None, first=None):
+    """real Molecule + real MD object (stand-in driver), real initialize(); returns (md, molecule, x0).
+    `first`: another batch of the same padded shape the SAME md object is initialised for beforehand (a screening loop
+    that reuses one driver object for equally padded batches)."""
     import torch
 
     params = sp.make_params(method, eps=1e-8)
     molecule, _ = sp.build(mols, params)
+    molecule0 = sp.build(first, params)[0] if first else None
     x0 = molecule.coordinates.detach().clone()
     nmol, n = x0.shape[:2]
     Kfull = np.zeros((nmol, 3 * n, 3 * n)) if K is None else K
@@ -90,6 +95,10 @@ def _setup(engine, mols, method, K, dt, damp, T, proxy, remove_com=None):
         md = MD.make_engine(engine, params, dt, T, MD.output_cfg("c12", [], data=0, coordinates=0, velocities=0, forces=0), k=(4 if engine.startswith("ksa") else 3), damp=damp)
     proxy.scripted = False
     torch.manual_seed(11)
+    if molecule0 is not None:
+        if tuple(molecule0.coordinates.shape) != tuple(molecule.coordinates.shape):
+            raise RuntimeError("reuse case needs two batches of the same padded shape")
+        md.initialize(molecule0, remove_com=(tuple(remove_com) if remove_com else None), steps=None)
     md.initialize(molecule, remove_com=(tuple(remove_com) if remove_com else None), steps=None)
     proxy.scripted = True
     return md, molecule, x0
@@ -108,8 +117,13 @@ def part_a(cfg):
     kB = _kB()
     out = {"problems": [], "evals": 0, "table": {}}
     prob = out["problems"]
+    first = None
+    if cfg.get("reuse"):
+        # the same driver object served another batch of the same padded shape first: other elements in every slot,
+        # padding where real atoms are now (reversed order of the hydrides)
+        first = [M.apply(M.get(nm), R) for nm in reversed(HYDRIDES)]
     with H.scripted_noise() as proxy:
-        md, molecule, _ = _setup(cfg["engine"], mols, "PM6_SP", None, dt, damp, T, proxy)
+        md, molecule, _ = _setup(cfg["engine"], mols, "PM6_SP", None, dt, damp, T, proxy, first=first)
         shape = molecule.velocities.shape
         nmol, n = shape[:2]
         species = molecule.species.numpy()
@@ -410,10 +424,125 @@ def part_c(cfg):
     return out
 
 
+# ----------------------------------------------------------------------------- (d) surface hopping
+
+
+def part_d(cfg):
+    """The real SurfaceHoppingDynamics object with a damping time, real electronic structure (CIS) on a padded batch:
+    real initialize(), then the thermostat it will apply is identified one-hot as in (a), its degrees-of-freedom
+    bookkeeping is read, and one real integrator step is executed with the noise scripted to zero to count the
+    thermostat applications."""
+    import torch
+
+    from seqm.MolecularDynamics import CONSTANTS as C
+    from seqm.NonadiabaticDynamics import SurfaceHoppingDynamics
+
+    R = M.generic_rot(cfg["rot"])
+    names = cfg["mol"].split("+")
+    # (excited-state gradients exist for batches of one species list only, so no padding here; padding is part (a)'s)
+    mols = [M.apply(M.get(nm), M.generic_rot(cfg["rot"] + k)) for k, nm in enumerate(names)]
+    dt, T = cfg["dt"], cfg["T"]
+    damp = dt / cfg["ratio"]
+    kB = _kB()
+    params = sp.make_params("AM1", eps=1e-9)
+    params["excited_states"] = {"n_states": 3, "method": "cis"}
+    out = {"problems": [], "evals": 0}
+    prob = out["problems"]
+    wd = MD.scratch_dir("vpc12")
+    import os
+
+    cwd = os.getcwd()
+    os.chdir(wd)
+    try:
+        with H.scripted_noise() as proxy:
+            molecule, _ = sp.build(mols, params)
+            md = SurfaceHoppingDynamics(seqm_parameters=params, timestep=dt, Temp=T, damp=damp, initial_state=1,
+                                        output=MD.output_cfg("c12", [], data=0, coordinates=0, velocities=0, forces=0))  # fmt: skip
+            proxy.scripted = False
+            torch.manual_seed(11 + cfg["rot"])
+            com = tuple(cfg["com"]) if cfg.get("com") else None
+            md.initialize(molecule, remove_com=com, steps=None)
+            proxy.scripted = True
+            shape = molecule.velocities.shape
+            nmol, n = shape[:2]
+            species = molecule.species.numpy()
+            mass = molecule.mass.numpy().reshape(nmol, n)
+            ntot = nmol * n * 3
+            v_keep = molecule.velocities.detach().clone()
+
+            def apply(v, xi):
+                molecule.velocities = torch.as_tensor(v.reshape(shape)).clone()
+                proxy.script = [xi.reshape(shape) if xi is not None else None]
+                md._apply_langevin_thermostat(molecule)
+                out["evals"] += 1
+                return molecule.velocities.detach().numpy().reshape(-1).copy()
+
+            z = np.zeros(ntot)
+            c1 = np.zeros(ntot)
+            c2 = np.zeros(ntot)
+            offd = 0.0
+            for j in range(ntot):
+                e = z.copy()
+                e[j] = 1.0
+                r = apply(e, None)
+                c1[j] = r[j]
+                r[j] = 0.0
+                offd = max(offd, float(np.abs(r).max()))
+                r = apply(z, e)
+                c2[j] = r[j]
+                r[j] = 0.0
+                offd = max(offd, float(np.abs(r).max()))
+            if offd != 0.0:
+                prob.append(("not_diagonal", offd, f"a one-hot velocity/noise input changed another component by {offd:.3e}"))
+            c1 = c1.reshape(nmol, n, 3)
+            c2 = c2.reshape(nmol, n, 3)
+            worst = 0.0
+            svv = np.zeros((nmol, n, 3))  # stationary velocity variance of the thermostat: c2^2 / (1 - c1^2)
+            for m_ in range(nmol):
+                for a in range(n):
+                    for c in range(3):
+                        a1, a2 = c1[m_, a, c], c2[m_, a, c]
+                        if species[m_, a] == 0:
+                            if a2 != 0.0:
+                                prob.append(("padding_noise", abs(a2), f"padding atom ({m_},{a}) receives noise amplitude {a2:.3e}"))
+                            continue
+                        fd = a1 * a1 + a2 * a2 * mass[m_, a] / (kB * T) - 1.0
+                        worst = max(worst, abs(fd))
+                        svv[m_, a, c] = a2 * a2 / (1.0 - a1 * a1) if a1 < 1.0 else 0.0
+                        if not abs(fd) <= 1e-12:
+                            prob.append(("fluctuation_dissipation", abs(fd), f"surface hopping, Z={int(species[m_, a])}: c1^2 + c2^2 m/(k_B T) - 1 = {fd:.3e}"))
+            out["worst"] = worst
+            # the thermometer the run publishes, applied to the density the thermostat leaves invariant
+            ndof = np.asarray(md.n_dof.detach().numpy() if torch.is_tensor(md.n_dof) else md.n_dof, float).reshape(-1)
+            for m_ in range(nmol):
+                ek = 0.5 * float((mass[m_][:, None] * svv[m_]).sum()) * C.KINETIC_ENERGY_SCALE
+                tr = ek * C.TEMPERATURE_SCALE / (0.5 * float(ndof[m_ if len(ndof) > 1 else 0]))
+                out["T_dev"] = max(out.get("T_dev", 0.0), abs(tr / T - 1.0))
+                if not abs(tr / T - 1.0) <= 1e-9:
+                    prob.append(("thermometer", abs(tr / T - 1.0), f"surface hopping with damp={damp:g}: the package's temperature read-out of the thermostat's stationary state of molecule {m_} ({names[m_]}) is {tr:.6f} K (n_dof = {ndof.tolist()}, remove_com = {cfg.get('com')}), target {T} K"))
+            # one real step, zero noise: two thermostat applications, velocities finite
+            molecule.velocities = v_keep.clone()
+            proxy.script = []
+            d0 = proxy.draws
+            md._do_integrator_step(0, molecule, {})
+            out["evals"] += 1
+            out["draws_per_step"] = proxy.draws - d0
+            if proxy.draws - d0 != 2:
+                prob.append(("thermostat_applications", float(proxy.draws - d0), f"one surface-hopping step with a damping time drew {proxy.draws - d0} noise tensors (two half-step O-U updates expected)"))
+    finally:
+        os.chdir(cwd)
+        MD.rm(wd)
+    out["sig"] = f"{c1[0, 0, 0]:.6g}|{ndof.tolist()}"
+    out["error"] = None
+    return out
+
+
 # ----------------------------------------------------------------------------- driver
 
 
 def run_cfg(cfg):
+    if cfg["part"] == "d":
+        return part_d(cfg)
     if cfg["part"] == "a":
         return part_a(cfg)
     if cfg["part"] == "b":
@@ -423,7 +552,10 @@ def run_cfg(cfg):
 
 def _key(c):
     if c["part"] == "a":
-        return f"a|{c['engine']}|dt{c['dt']:g}|r{c['ratio']:g}|T{c['T']:g}"
+        return f"a|{c['engine']}|dt{c['dt']:g}|r{c['ratio']:g}|T{c['T']:g}" + ("|reused_driver" if c.get("reuse") else "")
+    if c["part"] == "d":
+        com = "".join(map(str, c["com"])) if c.get("com") else "none"
+        return f"d|sh|{c['mol']}|dt{c['dt']:g}|r{c['ratio']:g}|T{c['T']:g}|com={com}"
     if c["part"] == "b":
         com = "".join(map(str, c["com"])) if c.get("com") else "none"
         return f"b|{c['engine']}|{c['system']}|{c['kset']}|dt{c['dt']:g}|r{c['ratio']:g}|T{c['T']:g}|com={com}"
@@ -439,6 +571,17 @@ def lattice(tier, rot):
             for ratio in RATIOS:
                 for T in TEMPS:
                     cases.append(dict(part="a", engine=e, dt=dt, ratio=ratio, T=T, rot=rot))
+    # histories: the driver object served another equally padded batch before
+    for e in engines:
+        for ratio in [1e-2, 1.0] if tier == "quick" else RATIOS:
+            for T in [300.0] if tier == "quick" else TEMPS:
+                cases.append(dict(part="a", engine=e, dt=0.5, ratio=ratio, T=T, rot=rot, reuse=True))
+    # surface hopping (real engine, real CIS electronic structure)
+    for mol in ["H2CO+H2CO"] if tier == "quick" else ["H2CO+H2CO", "NH3", "H2O+H2O+H2O"]:
+        for ratio in [1e-2, 1.0] if tier == "quick" else [1e-4, 1e-2, 1.0, 10.0]:
+            for T in [300.0] if tier == "quick" else [10.0, 300.0, 3000.0]:
+                for com in (None, ["linear", 1], ["angular", 2]):
+                    cases.append(dict(part="d", engine="sh", mol=mol, dt=0.5, ratio=ratio, T=T, rot=rot, com=com))
     dts_b = [0.5] if tier == "quick" else [0.25, 0.5, 1.0]
     systems = ["H2O", "CH4+H2O"] if tier == "quick" else list(SYSTEMS)
     for e in engines:
@@ -465,7 +608,7 @@ def lattice(tier, rot):
 
 def _desc(c, oracle, mag, extra=None):
     d = dict(part=c["part"], engine=c["engine"], dt=c["dt"], oracle=oracle, magnitude=float(mag), rot=c["rot"])
-    for k in ("ratio", "T", "system", "kset", "kind", "mol", "seed"):
+    for k in ("ratio", "T", "system", "kset", "kind", "mol", "seed", "reuse"):
         if k in c:
             d[k] = c[k]
     d.update(extra or {})
@@ -474,9 +617,9 @@ def _desc(c, oracle, mag, extra=None):
 
 def evaluate(chk, cases, verbose=False):
     # real-MD limit cases are heavy (one process each); identification cases are milliseconds (chunked)
-    cases = sorted(cases, key=lambda c: {"c": 0, "b": 1, "a": 2}[c["part"]])
-    heavy = [c for c in cases if c["part"] == "c"]
-    light = [c for c in cases if c["part"] != "c"]
+    cases = sorted(cases, key=lambda c: {"c": 0, "d": 1, "b": 2, "a": 3}[c["part"]])
+    heavy = [c for c in cases if c["part"] in "cd"]
+    light = [c for c in cases if c["part"] not in "cd"]
     res = pmap(run_cfg, heavy, chunk=1, timeout=1800, progress="C12 limits") + pmap(run_cfg, light, chunk=6, timeout=1200, progress="C12 identification")
     nprob = 0
     elements = set()
